@@ -314,6 +314,8 @@ impl CubicBez {
     ///
     /// Rust port of cu2qu [cubic_farthest_fit_inside](https://github.com/fonttools/fonttools/blob/3b9a73ff8379ab49d3ce35aaaaf04b3a7d9d1655/Lib/fontTools/cu2qu/cu2qu.py#L281)
     fn fit_inside(&self, distance: f64) -> bool {
+        #[cfg(kurbo_verif)]
+        crate::verif_hooks::tick();
         if self.p2.to_vec2().hypot() <= distance && self.p1.to_vec2().hypot() <= distance {
             return true;
         }
@@ -606,6 +608,8 @@ fn arclen_quadrature_core(coeffs: &[(f64, f64)], dm: Vec2, dm1: Vec2, dm2: Vec2)
 }
 
 fn arclen_rec(c: &CubicBez, accuracy: f64, depth: usize) -> f64 {
+    #[cfg(kurbo_verif)]
+    crate::verif_hooks::tick();
     let d03 = c.p3 - c.p0;
     let d01 = c.p1 - c.p0;
     let d12 = c.p2 - c.p1;
